@@ -23,6 +23,8 @@ def keys_upto(n, alpha=ALPHA):
 KEYS3 = keys_upto(3)
 KEYS4 = keys_upto(4)
 VALUES = (1, 2, None)
+# values a lazy "absent" marker could be confused with: the structure must tell a stored value from absence whatever the value
+SENTINEL_LIKE = ["NULL", "null", "None", "", 0, False, (), NotImplemented, Ellipsis, "NUL", "MISSING", "<NULL>", -1]
 OPS = [(k, v) for k in KEYS3 for v in VALUES]
 
 
@@ -194,7 +196,7 @@ def main():
         hist = []
         for _ in range(rnd.randint(4, 14)):
             k = tuple(rnd.choice(alpha) for _ in range(rnd.randint(0, 5)))
-            hist.append((k, rnd.choice([0, 1, 2, None, "x", False])))
+            hist.append((k, rnd.choice(SENTINEL_LIKE if i % 5 == 4 else [0, 1, 2, None, "x", False])))
         trie, ref = replay_history(hist, mk)
         qs = [tuple(rnd.choice(alpha) for _ in range(rnd.randint(0, 6))) for _ in range(12)] + [k for k, _ in hist]
         check_state(col, trie, ref, hist, qs, mk)
